@@ -1116,6 +1116,14 @@ var ckptWindowScripts = func() (l [][2]string) {
 				fmt.Sprintf("OPEN S W W SW LR+ INJX=%d CK-%s SW", k, mode)})
 		}
 	}
+	// the long-running read transaction must survive the end of the call that acquired it (every
+	// litestream op of this harness runs under its own context, cancelled when the op returns): an
+	// unsynced commit, an application checkpoint, another commit, then an acknowledged sync
+	// (fixed in /repo: beb697d)
+	for _, mode := range []string{"PASSIVE", "FULL", "RESTART", "TRUNCATE"} {
+		l = append(l, [2]string{"live-app-checkpoint-after-read-lock-dropped",
+			fmt.Sprintf("OPEN S W W W SW W ACK-%s W SW", mode)})
+	}
 	// ... and a second one-frame commit (another page) that restarts the WAL between the post-PRAGMA
 	// header read and the post-checkpoint copy (Db/Machine.v full_checkpoint_post_copy_window_refuted;
 	// fixed in /repo)
